@@ -226,6 +226,55 @@ func (x *Exec) libModel(fr *Frame, st *State, ins ssa.Instruction, callee *ssa.F
 		x.sortStrings(fr, st, args[0], ins)
 		x.lib(full)
 		return true
+	case "sort.Sort", "sort.Stable":
+		// sort.Sort(x) where x is a slice type implementing sort.Interface by indexing itself
+		// (Len = len(x), Swap exchanges x[i] and x[j] - checked syntactically): afterwards the
+		// slice holds a permutation of its former elements, ordered by the type's own Less.
+		mi, ok := argVals[0].(*ssa.MakeInterface)
+		if !ok {
+			return false
+		}
+		slt, ok := underlying(mi.X.Type()).(*types.Slice)
+		if !ok || !x.plainSliceSorter(mi.X.Type()) {
+			return false
+		}
+		sv := x.val(fr, st, mi.X)
+		x.sortPerm(fr, st, sv, slt.Elem(), ins, x.lessMethod(mi.X.Type()), nil)
+		x.lib(full + " (permutation, ordered by the type's Less)")
+		return true
+	case "sort.Slice", "sort.SliceStable":
+		mi, ok := argVals[0].(*ssa.MakeInterface)
+		if !ok {
+			return false
+		}
+		slt, ok := underlying(mi.X.Type()).(*types.Slice)
+		if !ok {
+			return false
+		}
+		clo := x.closureOf(fr, st, argVals[1])
+		if clo == nil {
+			return false
+		}
+		sv := x.val(fr, st, mi.X)
+		x.sortPerm(fr, st, sv, slt.Elem(), ins, nil, clo)
+		x.lib(full + " (permutation, ordered by the less function given)")
+		return true
+	case "path/filepath.Join", "path.Join":
+		// a string determined by the element VALUES (the variadic slice is a temporary)
+		if n, ok := x.constLen(fr, argVals[0]); ok && n <= 6 {
+			arr, off, _ := x.sliceParts(st, args[0], stringT)
+			var es []Term
+			var sorts []Sort
+			for j := int64(0); j < n; j++ {
+				es = append(es, sel(arr, add(off, intLit(j)), SString))
+				sorts = append(sorts, SString)
+			}
+			name := fmt.Sprintf("pathjoin%d", n)
+			vc.declareFun(name, sorts, SString)
+			set(app(SString, name, es...))
+			return true
+		}
+		return false
 	case "(*strings.Builder).WriteString", "(*bytes.Buffer).WriteString":
 		x.builderAppend(fr, st, callee, args[0], args[1])
 		set(app(SInt, "str.len", args[1]), Term{"(mk-iface 0 0)", SIface})
@@ -393,6 +442,149 @@ func (x *Exec) sortStrings(fr *Frame, st *State, s Term, ins ssa.Instruction) {
 	x.setHeap(st, h, store(x.heap(st, h), sArr(s), na))
 }
 
+
+// plainSliceSorter: the named slice type implements sort.Interface in the plain way: Len returns
+// len(x) and Swap exchanges x[i] and x[j] (both bodies are matched instruction by instruction).
+func (x *Exec) plainSliceSorter(t types.Type) bool {
+	get := func(name string) *ssa.Function {
+		ms := x.eng.Prog.MethodSets.MethodSet(t)
+		for i := 0; i < ms.Len(); i++ {
+			if ms.At(i).Obj().Name() == name {
+				return x.eng.Prog.MethodValue(ms.At(i))
+			}
+		}
+		return nil
+	}
+	ln, sw, ls := get("Len"), get("Swap"), get("Less")
+	if ln == nil || sw == nil || ls == nil {
+		return false
+	}
+	for _, f := range []*ssa.Function{ln, sw, ls} {
+		x.eng.ensureBuilt(f)
+		if len(f.Blocks) == 0 {
+			return false
+		}
+	}
+	// Len: a single block whose only call is len(receiver)
+	okLen := false
+	if len(ln.Blocks) == 1 {
+		for _, in := range ln.Blocks[0].Instrs {
+			if c, ok := in.(*ssa.Call); ok {
+				if b, ok := c.Call.Value.(*ssa.Builtin); ok && b.Name() == "len" {
+					okLen = true
+				} else if ok && strings.HasPrefix(b.Name(), "ssa:") {
+					continue
+				} else {
+					return false
+				}
+			}
+		}
+	}
+	// Swap: single block, exactly two stores, both through IndexAddr of the receiver, no calls
+	okSwap := false
+	if len(sw.Blocks) == 1 {
+		stores := 0
+		okSwap = true
+		for _, in := range sw.Blocks[0].Instrs {
+			switch v := in.(type) {
+			case *ssa.Store:
+				if _, isCell := v.Addr.(*ssa.Alloc); isCell {
+					continue
+				}
+				if _, ok := v.Addr.(*ssa.IndexAddr); !ok {
+					okSwap = false
+				}
+				stores++
+			case *ssa.Call:
+				if b, ok := v.Call.Value.(*ssa.Builtin); !ok || !strings.HasPrefix(b.Name(), "ssa:") {
+					okSwap = false
+				}
+			case *ssa.MapUpdate:
+				okSwap = false
+			}
+		}
+		if stores != 2 {
+			okSwap = false
+		}
+	}
+	return okLen && okSwap
+}
+
+func (x *Exec) lessMethod(t types.Type) *ssa.Function {
+	ms := x.eng.Prog.MethodSets.MethodSet(t)
+	for i := 0; i < ms.Len(); i++ {
+		if ms.At(i).Obj().Name() == "Less" {
+			return x.eng.Prog.MethodValue(ms.At(i))
+		}
+	}
+	return nil
+}
+
+// sortPerm: the slice s (elements of type et) afterwards holds a permutation of its former
+// elements (explicit permutation witness, injective on the index range) such that for no
+// i < j the element at j is less than the element at i, with "less" the type's own Less method
+// (lessFn, receiver = the sorted slice) or the closure handed to sort.Slice (lessClo, which
+// indexes the same slice variable), executed symbolically inside the quantifier.
+func (x *Exec) sortPerm(fr *Frame, st *State, s Term, et types.Type, ins ssa.Instruction, lessFn *ssa.Function, lessClo *closure) {
+	vc := x.vc
+	if fr.spec {
+		panic(engErr("ghost code sorts"))
+	}
+	if vc.noName > 0 {
+		panic(engErr("sort inside quantifier body"))
+	}
+	h := vc.arrHeap(et)
+	es := vc.sortOf(et)
+	as := arraySort(SInt, es)
+	old := vc.name("so", sel(x.heap(st, h), sArr(s), as))
+	na := vc.fresh("sorted", as)
+	ln := vc.name("sln", sLen(s))
+	vc.nfresh++
+	pi := fmt.Sprintf("perm!%d", vc.nfresh)
+	vc.declareFun(pi, []Sort{SInt}, SInt)
+	inv := fmt.Sprintf("pinv!%d", vc.nfresh)
+	vc.declareFun(inv, []Sort{SInt}, SInt)
+	// outside the slice window nothing changes
+	vc.assert(Term{fmt.Sprintf("(forall ((i Int)) (! (=> (or (< i 0) (>= i %[1]s)) (= (select %[2]s i) (select %[3]s i))) :pattern ((select %[2]s i))))", ln.S, na.S, old.S), SBool})
+	// permutation witness pi with inverse pinv: new[i] = old[pi(i)], pinv(pi(i)) = i, and every old index is hit
+	vc.assert(Term{fmt.Sprintf("(forall ((i Int)) (! (=> (and (<= 0 i) (< i %[1]s)) (and (<= 0 (%[4]s i)) (< (%[4]s i) %[1]s) (= (%[5]s (%[4]s i)) i) (= (select %[2]s i) (select %[3]s (%[4]s i))))) :pattern ((%[4]s i)) :pattern ((select %[2]s i))))", ln.S, na.S, old.S, pi, inv), SBool})
+	vc.assert(Term{fmt.Sprintf("(forall ((k Int)) (! (=> (and (<= 0 k) (< k %[1]s)) (and (<= 0 (%[3]s k)) (< (%[3]s k) %[1]s) (= (%[2]s (%[3]s k)) k))) :pattern ((%[3]s k)) :pattern ((select %[4]s k))))", ln.S, pi, inv, old.S), SBool})
+	x.frameCheckLVal(fr, st, &LVal{ptr: sArr(s), rootT: et, arr: true, typ: et}, "sort", ins.Pos())
+	x.setHeap(st, h, store(x.heap(st, h), sArr(s), na))
+	if !isFreshRefTerm(sArr(s)) {
+		st.markDirty(h.name)
+	}
+	// ordering: forall i < j in range: !less(j, i)
+	func() {
+		defer func() {
+			if r := recover(); r != nil {
+				if ee, ok := r.(*engError); ok {
+					x.note("sort: the ordering by Less could not be expressed (%s); only the permutation is assumed", ee.msg)
+					vc.binders, vc.letStack, vc.noName = nil, nil, 0
+					return
+				}
+				panic(r)
+			}
+		}()
+		bi := Term{fmt.Sprintf("bv!sort%d!i", vc.nfresh), SInt}
+		bj := Term{fmt.Sprintf("bv!sort%d!j", vc.nfresh), SInt}
+		vc.openBinder(bi.S)
+		s2 := st.clone()
+		s2.reach = tTrue
+		var vals []Term
+		tmp := x.newFrame(fr.fn, fr)
+		tmp.spec = true
+		x.ghostDepth++
+		if lessFn != nil {
+			vals = x.inlineRun(tmp, s2, lessFn, nil, []Term{s, bj, bi}, ins.Pos())
+		} else {
+			vals = x.inlineRun(tmp, s2, lessClo.fn, lessClo, []Term{bj, bi}, ins.Pos())
+		}
+		x.ghostDepth--
+		body, _ := vc.closeBinder(implies(and(le(intLit(0), bi), lt(bi, bj), lt(bj, ln)), not(vals[0])))
+		vc.assert(Term{fmt.Sprintf("(forall ((%s Int) (%s Int)) (! %s :pattern ((select %s %s) (select %s %s))))", bi.S, bj.S, body.S, na.S, bi.S, na.S, bj.S), SBool})
+	}()
+}
 
 // globalRegexPattern: the constant pattern a package-level *regexp.Regexp variable is compiled
 // from (assigned once, in the package initialiser, by regexp.MustCompile of a constant).
